@@ -178,6 +178,11 @@ def _values(ctx, ir, name, state, extra=()):
     for a in ds:
         if isinstance(a.rhs, E) and a.rhs.op == 'sig':
             leaves.add(a.rhs.canon())
+        elif isinstance(a.rhs, E) and a.rhs.op != 'const':
+            # a word computed from one-bit inputs (e.g. a constant OR-ed with a Cat of request flags): its inputs are conditions
+            for n_ in a.rhs.sigs():
+                if getattr(ir.signals.get(n_), 'w', 1) in (1, None):
+                    leaves.add(n_)
     out = []
     for asg in q.all_assignments(sorted(leaves)):
         val = 0
@@ -189,6 +194,12 @@ def _values(ctx, ir, name, state, extra=()):
                 rv = r.val
             elif isinstance(r, E) and r.op == 'sig' and r.canon() in asg:
                 rv = int(asg[r.canon()])
+            elif isinstance(r, E) and all(n_ in asg for n_ in r.sigs()):
+                from ..num import ev as _nev, NoEval as _NoEval
+                try:
+                    rv = _nev(r, {n_: int(asg[n_]) for n_ in r.sigs()})
+                except _NoEval as ex_:
+                    ctx.need(False, 'right-hand side of %s evaluates from one-bit inputs (%s)' % (q.fmt(a), ex_))
             else:
                 ctx.need(False, 'constant or 1-bit right-hand side of %s' % q.fmt(a))
             if a.lhs.op == 'sig':
